@@ -22,12 +22,7 @@
 (* fall, whether a final flush after only empty writes emits an empty      *)
 (* frame or nothing, ReadFrom's return value after a destination failure.  *)
 (***************************************************************************)
-EXTENDS Naturals, Integers, Sequences
-
-\* first failed clause of a list of <<condition, name>> pairs ("" = all hold)
-FirstBad(cs) ==
-    IF \A i \in 1..Len(cs) : cs[i][1] THEN ""
-    ELSE cs[CHOOSE i \in 1..Len(cs) : ~cs[i][1] /\ \A j \in 1..(i - 1) : cs[j][1]][2]
+EXTENDS Naturals, Integers, Sequences, MonUtil
 
 IsDataOp(op) == op \in {1, 2}
 
